@@ -45,9 +45,9 @@ def run(name, pids, tier='quick'):
     try:
         for pid in pids:
             r = sh(f'python3 {V}/check.py {pid} --tier {tier}', V)
-            lines = [l for l in r.stdout.splitlines() if l.startswith('VIOLATION') or l.startswith('KNOWN-FINDING')]
-            out[pid] = {'rc': r.returncode, 'lines': lines[:5]}
-            print(pid, r.returncode, lines[:3], flush=True)
+            lines = [l for l in r.stdout.splitlines() if l.startswith('VIOLATION')]
+            out[pid] = {'rc': r.returncode, 'lines': lines[:8], 'detected': any('no-failing-input-found' not in l or 'correspondence' in l for l in lines) and r.returncode == 1}
+            print(pid, r.returncode, [l[:90] for l in lines[:3]], flush=True)
             if r.returncode not in (0, 1): print(r.stdout[-2000:])
     finally:
         sh('git checkout -- .', '/repo')
